@@ -8,6 +8,7 @@ use crate::ingester::ChunkMetadata;
 use crate::sharding::SplitPhase;
 use crate::Result;
 use async_trait::async_trait;
+use dashmap::mapref::entry::Entry;
 use dashmap::DashMap;
 use parking_lot::RwLock;
 use std::collections::{BTreeMap, HashMap};
@@ -379,23 +380,30 @@ impl MetadataClient for LocalMetadataClient {
         metadata: &crate::sharding::ShardMetadata,
         expected_generation: u64,
     ) -> Result<()> {
-        // Check generation
-        if let Some(current) = self.shard_metadata.get(shard_id) {
-            if current.generation != expected_generation {
-                return Err(crate::Error::StaleGeneration {
-                    expected: expected_generation,
-                    actual: current.generation,
-                });
+        // Check the generation and store the update under the entry's lock, so that of
+        // several concurrent updates based on the same generation only one succeeds.
+        match self.shard_metadata.entry(shard_id.to_string()) {
+            Entry::Occupied(mut current) => {
+                if current.get().generation != expected_generation {
+                    return Err(crate::Error::StaleGeneration {
+                        expected: expected_generation,
+                        actual: current.get().generation,
+                    });
+                }
+                // Update with incremented generation
+                let mut new_metadata = metadata.clone();
+                new_metadata.generation = expected_generation + 1;
+                current.insert(new_metadata);
             }
-        } else if expected_generation != 0 {
-            return Err(crate::Error::ShardNotFound(shard_id.to_string()));
+            Entry::Vacant(slot) => {
+                if expected_generation != 0 {
+                    return Err(crate::Error::ShardNotFound(shard_id.to_string()));
+                }
+                let mut new_metadata = metadata.clone();
+                new_metadata.generation = expected_generation + 1;
+                slot.insert(new_metadata);
+            }
         }
-
-        // Update with incremented generation
-        let mut new_metadata = metadata.clone();
-        new_metadata.generation = expected_generation + 1;
-        self.shard_metadata
-            .insert(shard_id.to_string(), new_metadata);
 
         Ok(())
     }
